@@ -23,6 +23,8 @@ import (
 	"os"
 	"os/exec"
 	"path/filepath"
+	"runtime/pprof"
+	"sort"
 	"strconv"
 	"strings"
 	"time"
@@ -87,8 +89,7 @@ var stakeVectors = [][]int64{{60, 20, 10, 10}, {30, 30, 30, 10}, {1, 1, 1, 1}}
 // the 0x2c address sits in slot 3 (the 10 % slot of both weighted stake
 // vectors); the second rotation moves slots (0,1,2,3) to (2,3,0,1) so that every
 // pattern is in a jailable slot of (60,20,10,10) in at least one job.
-func groups(thorough bool) [][]string {
-	var gs [][]string
+func groups(thorough bool) (gs [][]string, names []string) {
 	positions := []int{0, 10, 19}
 	if thorough {
 		positions = nil
@@ -102,17 +103,19 @@ func groups(thorough bool) [][]string {
 		pat([]int{3, 11}, 0x2c), // two commas
 		hex.EncodeToString(bytes.Repeat([]byte{0x2c}, 20)), // all commas
 	})
+	names = append(names, "multi")
 	for _, p := range positions {
 		gs = append(gs, []string{pat([]int{p}, 0x00), pat([]int{p}, 0xff), pat([]int{p}, 0x2b), pat([]int{p}, 0x2c)})
+		names = append(names, fmt.Sprintf("p%d", p))
 	}
-	return gs
+	return gs, names
 }
 
 func rotate2(a []string) []string { return []string{a[2], a[3], a[0], a[1]} }
 
 func jobs(thorough bool) []job {
 	var out []job
-	gs := groups(thorough)
+	gs, names := groups(thorough)
 	// decisive jobs first: comma address in the 10 % slot
 	for rot := 0; rot < 2; rot++ {
 		for _, sv := range stakeVectors {
@@ -121,7 +124,7 @@ func jobs(thorough bool) []job {
 				if rot == 1 {
 					a = rotate2(g)
 				}
-				out = append(out, job{Name: fmt.Sprintf("g%d.r%d.s%d-%d-%d-%d", gi, rot, sv[0], sv[1], sv[2], sv[3]), Addrs: a, Stakes: sv})
+				out = append(out, job{Name: fmt.Sprintf("%s.r%d.s%d-%d-%d-%d", names[gi], rot, sv[0], sv[1], sv[2], sv[3]), Addrs: a, Stakes: sv})
 			}
 		}
 		if rot == 0 {
@@ -402,6 +405,7 @@ func (e *env) endBlock(ctx *sdk.Context, g *ghost) *explore.Fail {
 			case possiblyProtected(post, v):
 				e.count("n_sweep_spared_protected")
 			default:
+				e.count(fmt.Sprintf("viol_must_jail_addr_%x", []byte(e.w.Vals[v].ValAddr)))
 				return explore.Failf("must-jail:sweep-skipped-expired-validator",
 					"v%d (operator %s = %x, tokens %d, status %s) not jailed by the liveness check at height %d: keep-alive expired at %d, last unjailed in block %d, validators after the check %v (%s)",
 					v, e.w.Vals[v].ValAddr.String(), []byte(e.w.Vals[v].ValAddr), post[v].Tokens, post[v].Status, h, vg.AliveUntil, vg.UnjailEvt, post, e.desc)
@@ -554,6 +558,17 @@ func (e *env) propose(ctx *sdk.Context, ver string, target uint64) error {
 	})
 }
 
+// opsOnPath counts the operations of a path (seed markers like <ladder3> excluded).
+func opsOnPath(p []string) int {
+	n := 0
+	for _, l := range p {
+		if !strings.HasPrefix(l, "<") {
+			n++
+		}
+	}
+	return n
+}
+
 func verIdx(v string) int {
 	for i, x := range versions {
 		if x == v {
@@ -600,7 +615,7 @@ func (e *env) ops(n *explore.Node) []explore.Op {
 	add("Adv1", func(ctx *sdk.Context, g *ghost) *explore.Fail { return e.advance(ctx, g, 1) })
 	add("AdvTo10", func(ctx *sdk.Context, g *ghost) *explore.Fail { return e.advSweep(ctx, g) })
 	add("Adv31", func(ctx *sdk.Context, g *ghost) *explore.Fail { return e.advance(ctx, g, refGrace+1) })
-	if g.BigAdv < e.maxBig && len(n.Path) < e.maxBigPos {
+	if g.BigAdv < e.maxBig && opsOnPath(n.Path) < e.maxBigPos {
 		add("Adv2000", func(ctx *sdk.Context, g *ghost) *explore.Fail { g.BigAdv++; return e.advance(ctx, g, refTTL) })
 	}
 	if mi >= 1 && g.Raises < e.maxRaise && mi+2 < len(versions) {
@@ -765,7 +780,7 @@ func (e *env) setup() (main []*explore.Node, at1009 *explore.Node, f *explore.Fa
 	mid := &explore.Node{Ctx: ctx, Ghost: g.Clone()}
 	ctx = world.Fork(ctx)
 	// second initial node: staggered expiries v0,v1: 3009, v2: 3011, v3: 3010
-	ctxB, gB := world.Fork(ctx), g.Clone().(*ghost)
+	ctxB, gB := world.Fork(mid.Ctx), g.Clone().(*ghost)
 	if f := e.advance(&ctx, g, 1990); f != nil {
 		return nil, nil, f
 	}
@@ -828,16 +843,15 @@ func (e *env) ladder(from *explore.Node, kmax int) ([]*explore.Node, *explore.Fa
 	return out, nil
 }
 
+// item: one child process = one world = one (job, sub-shard).
 type item struct {
-	Job       int
-	Sub, NSub int
-}
-
-func tierParams(thorough bool) (depth, ladderDepth, nsub int) {
-	if thorough {
-		return 6, 4, 2
-	}
-	return 4, 3, 1
+	Job    int     `json:"job"`
+	Sub    int     `json:"sub"`
+	NSub   int     `json:"nsub"`
+	Depth  int     `json:"depth"`
+	LDepth int     `json:"ldepth"` // depth of the ladder exploration, 0 = none
+	KMax   int     `json:"kmax"`   // ladder seeds 1..KMax
+	Weight float64 `json:"weight"` // estimated relative cost (budget share)
 }
 
 func envInt(name string, def int) int {
@@ -847,28 +861,75 @@ func envInt(name string, def int) int {
 	return def
 }
 
-func (e *env) specs(sub, nsub int, deadline time.Time) (mainSpec, ladderSpec explore.Spec, f *explore.Fail) {
-	depth, ldepth, _ := tierParams(e.thorough)
-	depth = envInt("VERIF_C12_DEPTH", depth)
-	ldepth = envInt("VERIF_C12_LDEPTH", ldepth)
+// items lists the work of a tier, most expensive first.
+//
+//	quick:    every job to depth 4; ladder (depth 3) on the multi-comma and keyed jobs
+//	thorough: every job to depth 4, the (60,20,10,10) jobs with the comma address
+//	          in the 10 % slot to depth 5, the three jobs of address group 1
+//	          (byte 0 patterns) to depth 6 in 16 sub-shards; ladder depth 4
+func items(thorough bool) []item {
+	var out []item
+	for ji, j := range jobs(thorough) {
+		it := item{Job: ji, NSub: 1, Depth: 4}
+		ladderJob := strings.HasPrefix(j.Name, "multi.r0.") || strings.HasPrefix(j.Name, "keyed.")
+		if ladderJob {
+			it.LDepth, it.KMax = 3, 4
+		}
+		if thorough {
+			if ladderJob {
+				it.LDepth = 4
+				if strings.Contains(j.Name, ".s60-") {
+					it.KMax = 6 // serves the 24 h sentence twice (2 x 43201 blocks)
+				}
+			}
+			switch {
+			case strings.HasPrefix(j.Name, "p0.r0."):
+				it.Depth, it.NSub = 6, 16
+			case strings.Contains(j.Name, ".r0.s60-"):
+				it.Depth, it.NSub = 5, 2
+			}
+		}
+		it.Depth = envInt("VERIF_C12_DEPTH", it.Depth)
+		it.NSub = envInt("VERIF_C12_NSUB", it.NSub)
+		cost := 1.0
+		for d := 4; d < it.Depth; d++ {
+			cost *= 7
+		}
+		it.Weight = cost/float64(it.NSub) + 0.3
+		if it.LDepth > 0 {
+			it.Weight += 0.5
+		}
+		for sub := 0; sub < it.NSub; sub++ {
+			x := it
+			x.Sub = sub
+			if sub > 0 {
+				x.LDepth = 0
+			}
+			out = append(out, x)
+		}
+	}
+	sort.SliceStable(out, func(a, b int) bool { return out[a].Weight > out[b].Weight })
+	if lim := envInt("VERIF_C12_ITEMS", 0); lim > 0 && lim < len(out) {
+		out = out[:lim]
+	}
+	return out
+}
+
+func (e *env) specs(it item, deadline time.Time) (mainSpec, ladderSpec explore.Spec, f *explore.Fail) {
 	init, mid, f := e.setup()
 	if f != nil {
 		return mainSpec, ladderSpec, f
 	}
 	var seeds []*explore.Node
-	if sub == 0 {
-		kmax := 4
-		if e.thorough && (strings.HasPrefix(e.j.Name, "g0.r0.") || strings.HasPrefix(e.j.Name, "keyed.")) {
-			kmax = 6 // includes serving the 24 h sentence twice (2 x 43201 blocks)
-		}
-		if seeds, f = e.ladder(mid, kmax); f != nil {
+	if it.LDepth > 0 {
+		if seeds, f = e.ladder(mid, it.KMax); f != nil {
 			return mainSpec, ladderSpec, f
 		}
 	}
-	mainSpec = explore.Spec{Name: "main;" + e.j.String(), Init: init, Ops: e.ops, Hash: e.hash,
-		MaxDepth: depth, Deadline: deadline, ShardDepth: 2, Shard: sub, NShards: nsub}
-	ladderSpec = explore.Spec{Name: "ladder;" + e.j.String(), Init: seeds, Ops: e.ops, Hash: e.hash,
-		MaxDepth: ldepth, Deadline: deadline}
+	mainSpec = explore.Spec{Name: "main;" + e.j.Name, Init: init, Ops: e.ops, Hash: e.hash,
+		MaxDepth: it.Depth, Deadline: deadline, ShardDepth: 2, Shard: it.Sub, NShards: it.NSub}
+	ladderSpec = explore.Spec{Name: "ladder;" + e.j.Name, Init: seeds, Ops: e.ops, Hash: e.hash,
+		MaxDepth: it.LDepth, Deadline: deadline}
 	return mainSpec, ladderSpec, nil
 }
 
@@ -879,9 +940,9 @@ func runItem(r *report.Run, it item, deadline time.Time) {
 	e := newEnv(r, j)
 	setRule(r)
 	t0 := time.Now()
-	mainSpec, ladderSpec, f := e.specs(it.Sub, it.NSub, deadline)
+	mainSpec, ladderSpec, f := e.specs(it, deadline)
 	if f != nil {
-		r.Violate("setup:"+f.Signature, f.Message, map[string]interface{}{"scenario": "setup;" + j.String(), "path": []string{}})
+		r.Violate("setup:"+f.Signature, f.Message, map[string]interface{}{"scenario": "setup;" + j.Name, "path": []string{}})
 		return
 	}
 	r.Extra["setup_s"] = time.Since(t0).Seconds()
@@ -904,15 +965,22 @@ func runItem(r *report.Run, it item, deadline time.Time) {
 		tm("JailInactive", func() { e.w.App.ValsetKeeper.JailInactiveValidators(ctx) })
 		tm("endBlock(full step)", func() { e.endBlock(&ctx, g) })
 	}
-	res := explore.Run(r, mainSpec)
-	if it.Sub == 0 {
-		r.Extra["jobs_run"] = float64(1)
-		if res.DepthCompleted >= mainSpec.MaxDepth {
-			r.Extra["jobs_depth_completed"] = float64(1)
+	if pf := os.Getenv("VERIF_C12_CPUPROF"); pf != "" {
+		if fh, err := os.Create(pf); err == nil {
+			_ = pprof.StartCPUProfile(fh)
+			defer pprof.StopCPUProfile()
 		}
+	}
+	res := explore.Run(r, mainSpec)
+	r.Extra[fmt.Sprintf("items_depth%d_run", it.Depth)] = float64(1)
+	if res.DepthCompleted >= mainSpec.MaxDepth && !res.Capped {
+		r.Extra[fmt.Sprintf("items_depth%d_completed", it.Depth)] = float64(1)
+	}
+	if it.LDepth > 0 {
 		lres := explore.Run(r, ladderSpec)
-		if lres.DepthCompleted >= ladderSpec.MaxDepth {
-			r.Extra["ladders_depth_completed"] = float64(1)
+		r.Extra["ladders_run"] = float64(1)
+		if lres.DepthCompleted >= ladderSpec.MaxDepth && !lres.Capped {
+			r.Extra["ladders_completed"] = float64(1)
 		}
 	}
 	fmt.Fprintf(os.Stderr, "C12 item job=%d(%s) sub=%d/%d states=%d transitions=%d depth=%d/%d violations=%d %.1fs\n",
@@ -920,8 +988,11 @@ func runItem(r *report.Run, it item, deadline time.Time) {
 }
 
 func setRule(r *report.Run) {
-	depth, ldepth, _ := tierParams(r.Thorough())
-	r.Rule = fmt.Sprintf("per (address set of 4 operator addresses, stake vector): BFS to depth %d from block 2999 (all keep-alives expiring at 3009) and to depth %d from ladder seeds (v3 jailed 1..k times in succession) over KeepAlive(v,{min,below,above}) through the real message server (signed txs for the keyed runs), Jail(v) (valset keeper), SJail(v) (slashing keeper), Unjail(v) (slashing keeper as MsgUnjail), Adv1, AdvTo10 (through the next liveness check), Adv31, Adv2000 (bounded per path), RaiseMin/LowerMin/SchedRaise through the valset governance handler; every block runs the staking end-blocker, the valset EndBlock and the valset BeginBlock of the real application and the oracle; address sets: base 0x55*20 with byte p set to 0x00/0xff/0x2b/0x2c plus multi-comma addresses, two slot rotations; stake vectors (60,20,10,10),(30,30,30,10),(1,1,1,1) x 10^6 ugrain", depth, ldepth)
+	depth, ldepth := "4", "3"
+	if r.Thorough() {
+		depth, ldepth = "4 (5 for the (60,20,10,10) jobs with the 0x2c address in the 10 % slot, 6 for the three jobs of the byte-0 address group)", "4"
+	}
+	r.Rule = fmt.Sprintf("per (address set of 4 operator addresses, stake vector): BFS to depth %s from two initial nodes at block 2999 (keep-alives expiring at 3009, resp. staggered 3009/3009/3011/3010) and, for the multi-comma and keyed jobs, to depth %s from ladder seeds (v3 jailed 1..k times in succession, k <= 4 or 6) over KeepAlive(v,{min,below,above}) through the real message server (signed txs for the keyed runs), Jail(v) (valset keeper), SJail(v) (slashing keeper), Unjail(v) (slashing keeper as MsgUnjail), Adv1, AdvTo10 (through the next liveness check), Adv31, Adv2000 (at most 1 (thorough 2) per path, among the first 2 (thorough 4) operations), SJail for v0,v1 only in quick, RaiseMin/LowerMin/SchedRaise through the valset governance handler; every block runs the staking end-blocker, the valset EndBlock and the valset BeginBlock of the real application and the oracle; address sets: base 0x55*20 with byte p set to 0x00/0xff/0x2b/0x2c plus multi-comma addresses, two slot rotations; stake vectors (60,20,10,10),(30,30,30,10),(1,1,1,1) x 10^6 ugrain", depth, ldepth)
 	r.Assumptions = []string{
 		"block time fixed at 2 s; only the staking end-blocker and the valset begin/end-block run per block (the other modules' end-blockers do not touch keep-alive, grace or jail-log state)",
 		"keep-alive boundary: a validator must be jailed only at checks with height > aliveUntil and must never be jailed at checks with height < aliveUntil; height == aliveUntil is left open (weaker reading of 'longer than the lifetime')",
@@ -944,21 +1015,6 @@ type wire struct {
 	Caps                                        []string
 	Extra                                       map[string]interface{}
 	Violations                                  []report.Violation
-}
-
-func items(thorough bool) []item {
-	_, _, nsub := tierParams(thorough)
-	nsub = envInt("VERIF_C12_NSUB", nsub)
-	var out []item
-	for j := range jobs(thorough) {
-		for s := 0; s < nsub; s++ {
-			out = append(out, item{Job: j, Sub: s, NSub: nsub})
-		}
-	}
-	if lim := envInt("VERIF_C12_JOBS", 0); lim > 0 && lim*nsub < len(out) {
-		out = out[:lim*nsub]
-	}
-	return out
 }
 
 func dispatch(r *report.Run, shard, nshards int) {
@@ -988,13 +1044,22 @@ func dispatch(r *report.Run, shard, nshards int) {
 			r.Cap(fmt.Sprintf("deadline before work item %d of %d started", k, len(its)))
 			continue
 		}
-		rounds := (len(its) - k + nshards - 1) / nshards
-		dl := now.Add(global.Sub(now) / time.Duration(rounds))
+		// budget: this item's share of the remaining time, by estimated cost
+		rest := 0.0
+		for _, x := range its[k:] {
+			rest += x.Weight
+		}
+		share := it.Weight * float64(nshards) / rest
+		if share > 1 {
+			share = 1
+		}
+		dl := now.Add(time.Duration(float64(global.Sub(now)) * share))
+		itJSON, _ := json.Marshal(it)
 		out := filepath.Join(dir, fmt.Sprintf("item-%d.json", k))
 		cmd := exec.Command(os.Args[0])
 		cmd.Env = append(os.Environ(),
 			fmt.Sprintf("VERIF_WORKER=%d/%d", shard, nshards), "VERIF_WORKER_OUT="+out,
-			fmt.Sprintf("VERIF_C12_ITEM=%d/%d/%d", it.Job, it.Sub, it.NSub),
+			"VERIF_C12_ITEM="+string(itJSON),
 			fmt.Sprintf("VERIF_C12_DEADLINE=%d", dl.UnixNano()), "GOMAXPROCS=2")
 		cmd.Stdout, cmd.Stderr = os.Stderr, os.Stderr
 		if err := cmd.Run(); err != nil {
@@ -1019,8 +1084,10 @@ func dispatch(r *report.Run, shard, nshards int) {
 				r.Sample(s)
 			}
 		}
-		for _, c := range w.Caps {
-			r.Cap(c)
+		if len(w.Caps) > 0 {
+			r.Cap("deadline: some work items did not complete their depth (see items_depth*_completed / ladders_completed)")
+			old, _ := r.Extra["items_capped"].(float64)
+			r.Extra["items_capped"] = old + 1
 		}
 		for key, v := range w.Extra {
 			if f, ok := v.(float64); ok {
@@ -1050,10 +1117,15 @@ func replay(r *report.Run, file string) {
 	}
 	m := v.Replay.(map[string]interface{})
 	scen := m["scenario"].(string)
-	kind, js, _ := strings.Cut(scen, ";")
+	kind, name, _ := strings.Cut(scen, ";")
 	var j job
-	if err := json.Unmarshal([]byte(js), &j); err != nil {
-		fmt.Fprintln(os.Stderr, "bad scenario:", err)
+	for _, x := range append(jobs(false), jobs(true)...) {
+		if x.Name == name {
+			j = x
+		}
+	}
+	if j.Name == "" {
+		fmt.Fprintln(os.Stderr, "unknown job in replay scenario:", scen)
 		os.Exit(2)
 	}
 	var path []string
@@ -1062,7 +1134,12 @@ func replay(r *report.Run, file string) {
 	}
 	e := newEnv(r, j)
 	setRule(r)
-	mainSpec, ladderSpec, f := e.specs(0, 1, time.Time{})
+	it := item{NSub: 1, Depth: len(path)}
+	if kind == "ladder" && len(path) > 0 {
+		it.LDepth = len(path)
+		fmt.Sscanf(path[0], "<ladder%d>", &it.KMax)
+	}
+	mainSpec, ladderSpec, f := e.specs(it, time.Time{})
 	spec := mainSpec
 	if kind == "ladder" {
 		spec = ladderSpec
@@ -1094,7 +1171,10 @@ func main() {
 			replay(r, *replayFile)
 		case os.Getenv("VERIF_C12_ITEM") != "":
 			var it item
-			fmt.Sscanf(os.Getenv("VERIF_C12_ITEM"), "%d/%d/%d", &it.Job, &it.Sub, &it.NSub)
+			if err := json.Unmarshal([]byte(os.Getenv("VERIF_C12_ITEM")), &it); err != nil {
+				fmt.Fprintln(os.Stderr, "bad VERIF_C12_ITEM:", err)
+				os.Exit(2)
+			}
 			ns, _ := strconv.ParseInt(os.Getenv("VERIF_C12_DEADLINE"), 10, 64)
 			runItem(r, it, time.Unix(0, ns))
 		default:
